@@ -443,6 +443,28 @@ func C10(r *h.Run) {
 		if !set && (sc.calls != 1 || sc.has) {
 			r.Fail(h.Failure{Key: "handler-timeout/deadline-without-header", Family: fam, What: "no timeout header, yet the handler context has a deadline (or user code did not run)", Input: val, Actual: cls})
 		}
+		// values outside even the lenient reading of the grammar (an optional sign,
+		// decimal digits, for gRPC one unit letter; bounded length) must be rejected
+		if set && sc.calls != 0 {
+			lenient := false
+			body := val
+			if proto != "connect" && len(body) > 0 {
+				if _, ok := unitSize(body[len(body)-1]); ok {
+					body = body[:len(body)-1]
+				} else {
+					body = "x"
+				}
+			}
+			if len(body) > 0 && (body[0] == '+' || body[0] == '-') {
+				body = body[1:]
+			}
+			if body != "" && allDigits(body) {
+				lenient = true
+			}
+			if !lenient && val != "" {
+				r.Fail(h.Failure{Key: "handler-timeout/accepts-malformed", Family: fam, What: "a timeout that is not a decimal integer (with the protocol's unit) was accepted and user code ran", Input: val, Actual: cls})
+			}
+		}
 		// grammatical values are honoured exactly
 		if set {
 			var want *big.Int
@@ -476,7 +498,8 @@ func C10(r *h.Run) {
 	handlerCase("connect", "", false)
 	handlerCase("grpc", "", false)
 	for _, s := range []string{"1", "0", "5000", "9999999999", "10000000000", "0000000005", "00000000005", "99999999999", "abc", "5s", "-5", "+5", " 5", "5 ", "5.0", "1e3", "", "0x10",
-		"9223372036854", "1_000", "٥", "5\x00"} {
+		"9223372036854", "1_000", "٥", "5\x00",
+		"1.5", ".5", "60000.0", "1h30", "5m5", "1s1", "2us1", "1m", "5ms", "1e2", "0.", "1h", "5µs1", "1ns1"} {
 		handlerCase("connect", s, true)
 	}
 	for _, s := range []string{"1n", "5S", "99999999H", "2562047H", "2562048H", "00000005S", "5", "S", "5s", "+5S", "-5S", "-0S", "100000000n", "000000000S", "00000000005S", "5 S", "", "x", "5µ", "12345678m", "1u", "7M"} {
@@ -489,8 +512,8 @@ func C10(r *h.Run) {
 		for j := range b {
 			b[j] = byte('0' + hr.Intn(10))
 		}
-		if hr.Intn(5) == 0 {
-			b[hr.Intn(nd)] = "+-x _"[hr.Intn(5)]
+		if hr.Intn(4) == 0 {
+			b[hr.Intn(nd)] = "+-x _.hmsun"[hr.Intn(11)]
 		}
 		handlerCase("connect", string(b), true)
 		nd = 1 + hr.Intn(9)
